@@ -177,7 +177,7 @@ pub(crate) fn decimal_from_parsed<D: BinaryBuf, T: TextBuf>(
             // This process is the same as finite integers.
             if let Some(ParsedSignificand {
                 significand_range, ..
-            }) = nan_payload
+            }) = nan_payload.filter(|payload| !payload.significand_range.is_empty())
             {
                 let payload_buf = nan_buf.get_ascii();
 
